@@ -6,7 +6,8 @@ unsorted time stamps, mutation of source fields and of fields read back, derived
 a malformed stream) against `PdeVerif.Storage.step` (Lean, exact rationals): after EVERY step
 the error class, the returned observation, `times`, every frame's data, write mode, data shape,
 grid, template, every live field's data and the memory-sharing partition are compared.
-Monitor: `harness/common/c20_spec.py` (specification log under the documented semantics)."""
+Monitor: `harness/common/c20_spec.py` (specification log under the documented semantics; it judges
+itself, from the public state before the operation, whether an operation is valid and must succeed)."""
 import functools
 from fractions import Fraction
 
@@ -28,6 +29,11 @@ REQUIRED_THEOREMS = [
     "extract_field_world", "apply_world", "getSlice_eq", "gatherInto_spec", "gatherInto_too_long",
     "collInfo_cases", "allwf_step", "applyTo_some_srun", "world_refines_store_all", "world_run_refines_all",
     "world_reads_appended",
+    # review 1: acceptance (valid operations are never refused), full extract_time_range statement, the cast-fail
+    # half of copy/apply, what the reading operations of the world return
+    "extract_time_range_sorted", "copy_apply_castfail", "valid_session_accepted", "valid_sessions_accepted",
+    "valid_history_stored", "runBoth_of_allAccepted", "mapFrames_items", "mapFrames_getSlice", "mapFrames_viewGet",
+    "read_world", "items_world", "slice_world", "view_field_world", "world_read_returns_appended",
 ]
 RULE = ("(1) adaptive random operation sequences of length 5-40 over newField/setField/newStore/setMode/"
         "start_writing/append/end_writing/clear/read/items/slice/extract_time_range/extract_field/view_field/"
@@ -37,14 +43,22 @@ RULE = ("(1) adaptive random operation sequences of length 5-40 over newField/se
         "malformed stream (writes without data shape, readonly writes, wrong grid/shape/dtype, out-of-range reads, bad "
         "field ids); distinct by operation list; non-trivial if >= 2 accepted appends of non-constant data, >= 1 "
         "accepted read or derived view and >= 1 mutation, mode transition, truncation or rejected operation. "
+        "Half of the data values carry 30-37 significant bits (not representable in float32). "
         "(2) ALL sequences over a 13-operation alphabet up to length 2-4 per initial write mode; non-trivial if the "
-        "storage state moves or an operation is rejected at least twice. (3) searchsorted on sorted/unsorted/tied "
-        "lists vs numpy. (4) real solver runs filling one storage through storage.tracker(). (5) get_memory_storage. "
-        "(6) 16 template/appended dtype combinations (monitor only)")
+        "storage state moves or an operation is rejected at least twice. (3) searchsorted vs numpy: a hard tie on "
+        "sorted/tied lists, informative on unsorted lists. (4) real solver runs filling one storage through "
+        "storage.tracker(). (5) get_memory_storage. (6) MONITOR ONLY: all 36 template/appended combinations of "
+        "float64/float32/complex128/complex64/int64/int32 for scalar fields and collections, each followed by a change "
+        "of the source, every read and every derived view, + adaptive sequences of generator (1) with 2-3 mixed dtypes, "
+        "stepped slices and StorageView iteration")
 ASSUMPTIONS = [
     "np.can_cast(field.dtype, storage dtype, 'same_kind') is an abstract flag of the append operation in the model; "
-    "the harness supplies numpy's verdict (int64 sessions exercise the TypeError route; complex/float32 only in the "
-    "monitor-only dtype leg)",
+    "the harness supplies numpy's verdict (int64 sessions exercise the TypeError route); the model's values are exact "
+    "rationals, so complex/float32/int32 data and the dtype pairs numpy casts 'same_kind' but not 'safe' are judged by "
+    "the monitor alone (dtype leg), not by the model",
+    "np.searchsorted on UNSORTED times is a detail of numpy's search loop: the model mirrors the loop of numpy 2.5.3; "
+    "model and numpy are tied on sorted times only, on unsorted times the monitor demands a contiguous run and a "
+    "differing bracket ends the model comparison of that sequence (recorded in the evidence, no alarm)",
     "numpy copy/view semantics (np.array copies, slicing shares) are observed through np.shares_memory / array bases",
     "the info dictionary shared between a storage and the storages derived from it is outside the model "
     "(extract_field on a derived storage without template is not generated)",
